@@ -25,11 +25,14 @@ Definition undo_keygen (st : sst) (k : Z) (fs : list bool) : sres * sst :=
   if f then (SUndoFailed, st)
   else (SPlain, {| s_doc := s_doc st; s_keys := keys_del (s_keys st) k; s_kids := s_kids st |}).
 
-(* generate_method: fresh key k (also the new method's payload), id u, scope sc *)
-Definition generate (snapshot : bool) (st : sst) (k : Z) (u : url) (sc : scope) (fs : list bool) : sres * sst :=
+(* generate_method: fresh key k (also the new method's payload), id ou, scope sc.
+   ou = None: VerificationMethod::new_from_jwk fails (no fragment was given and the JWK the store generated carries no kid,
+   which the JwkStorage contract allows); the stray key is removed like in the other error paths. *)
+Definition generate (snapshot : bool) (st : sst) (k : Z) (ou : option url) (sc : scope) (fs : list bool) : sres * sst :=
   let '(f1, fs1) := next fs in                                   (* JwkStorage::generate *)
   if f1 then (SPlain, st) else
   let st1 := {| s_doc := s_doc st; s_keys := s_keys st ++ [k]; s_kids := s_kids st |} in
+  match ou with None => undo_keygen st1 k fs1 | Some u =>       (* VerificationMethodConstructionError *)
   match insert_method (s_doc st) {| m_id := u; m_data := k |} sc with
   | inr _ => undo_keygen st1 k fs1                               (* FragmentAlreadyExists *)
   | inl d' =>
@@ -39,7 +42,7 @@ Definition generate (snapshot : bool) (st : sst) (k : Z) (u : url) (sc : scope) 
         let back := if snapshot then s_doc st else fst (remove_method d' u) in
         undo_keygen {| s_doc := back; s_keys := s_keys st1; s_kids := s_kids st |} k fs2
       else (SOk, {| s_doc := d'; s_keys := s_keys st1; s_kids := s_kids st ++ [(k, k)] |})
-  end.
+  end end.
 
 (* purge_method *)
 Definition purge (st : sst) (u : url) (fs : list bool) : sres * sst :=
